@@ -128,6 +128,35 @@ static RCP<const Set> make_set_intersection(const set_set &in)
     return *in.begin();
 }
 
+// Fallback of a member set operation for an operand it has no rule for.  The
+// free functions set_union() / set_intersection() end by calling the member
+// functions pairwise, so calling them back from a member with the same two
+// operands never terminates; they are only useful when the other operand is
+// a Union / Complement, over which they distribute.
+static RCP<const Set> union_fallback(const RCP<const Set> &self,
+                                     const RCP<const Set> &o)
+{
+    if (is_a<EmptySet>(*o))
+        return self;
+    if (is_a<UniversalSet>(*o))
+        return o;
+    if (is_a<Union>(*o))
+        return o->set_union(self);
+    return make_set_union({self, o});
+}
+
+static RCP<const Set> intersection_fallback(const RCP<const Set> &self,
+                                            const RCP<const Set> &o)
+{
+    if (is_a<EmptySet>(*o))
+        return o;
+    if (is_a<UniversalSet>(*o))
+        return self;
+    if (is_a<Union>(*o) or is_a<Complement>(*o))
+        return SymEngine::set_intersection({self, o});
+    return make_set_intersection({self, o});
+}
+
 RCP<const Set> Interval::set_intersection(const RCP<const Set> &o) const
 {
     if (is_a<Interval>(*o)) {
@@ -204,10 +233,10 @@ RCP<const Set> Interval::set_intersection(const RCP<const Set> &o) const
         }
     }
     if (is_a<UniversalSet>(*o) or is_a<EmptySet>(*o) or is_a<FiniteSet>(*o)
-        or is_a<Union>(*o) or is_a<Rationals>(*o) or is_a<Reals>(*o)
-        or is_a<Complexes>(*o)) {
+        or is_a<Union>(*o) or is_a<Reals>(*o) or is_a<Complexes>(*o)) {
         return (*o).set_intersection(rcp_from_this_cast<const Set>());
     }
+    // (Rationals sends an Interval back here: no simplification known)
     return make_set_intersection({rcp_from_this_cast<const Set>(), o});
 }
 
@@ -286,8 +315,7 @@ RCP<const Set> Complexes::set_intersection(const RCP<const Set> &o) const
     } else if (is_a<FiniteSet>(*o)) {
         return (*o).set_intersection(rcp_from_this_cast<const Set>());
     } else {
-        return SymEngine::set_intersection(
-            {rcp_from_this_cast<const Set>(), o});
+        return intersection_fallback(rcp_from_this_cast<const Set>(), o);
     }
 }
 
@@ -300,7 +328,7 @@ RCP<const Set> Complexes::set_union(const RCP<const Set> &o) const
     } else if (is_a<FiniteSet>(*o)) {
         return (*o).set_union(rcp_from_this_cast<const Set>());
     } else {
-        return SymEngine::set_union({rcp_from_this_cast<const Set>(), o});
+        return union_fallback(rcp_from_this_cast<const Set>(), o);
     }
 }
 
@@ -363,8 +391,7 @@ RCP<const Set> Reals::set_intersection(const RCP<const Set> &o) const
     } else if (is_a<FiniteSet>(*o) or is_a<Complexes>(*o)) {
         return (*o).set_intersection(rcp_from_this_cast<const Set>());
     } else {
-        return SymEngine::set_intersection(
-            {rcp_from_this_cast<const Set>(), o});
+        return intersection_fallback(rcp_from_this_cast<const Set>(), o);
     }
 }
 
@@ -377,7 +404,7 @@ RCP<const Set> Reals::set_union(const RCP<const Set> &o) const
     } else if (is_a<FiniteSet>(*o) or is_a<Complexes>(*o)) {
         return (*o).set_union(rcp_from_this_cast<const Set>());
     } else {
-        return SymEngine::set_union({rcp_from_this_cast<const Set>(), o});
+        return union_fallback(rcp_from_this_cast<const Set>(), o);
     }
 }
 
@@ -439,11 +466,11 @@ RCP<const Set> Rationals::set_intersection(const RCP<const Set> &o) const
     if (is_a<EmptySet>(*o) or is_a<Rationals>(*o) or is_a<Integers>(*o)
         or is_a<Naturals>(*o) or is_a<Naturals0>(*o)) {
         return o;
-    } else if (is_a<FiniteSet>(*o) or is_a<Reals>(*o) or is_a<Complexes>(*o)) {
+    } else if (is_a<FiniteSet>(*o) or is_a<Reals>(*o) or is_a<Complexes>(*o)
+               or is_a<Interval>(*o)) {
         return (*o).set_intersection(rcp_from_this_cast<const Set>());
     } else {
-        return SymEngine::set_intersection(
-            {rcp_from_this_cast<const Set>(), o});
+        return intersection_fallback(rcp_from_this_cast<const Set>(), o);
     }
 }
 
@@ -455,7 +482,7 @@ RCP<const Set> Rationals::set_union(const RCP<const Set> &o) const
     } else if (is_a<FiniteSet>(*o) or is_a<Reals>(*o) or is_a<Complexes>(*o)) {
         return (*o).set_union(rcp_from_this_cast<const Set>());
     } else {
-        return SymEngine::set_union({rcp_from_this_cast<const Set>(), o});
+        return union_fallback(rcp_from_this_cast<const Set>(), o);
     }
 }
 
@@ -520,8 +547,7 @@ RCP<const Set> Integers::set_intersection(const RCP<const Set> &o) const
     } else if (is_a<FiniteSet>(*o) or is_a<Interval>(*o)) {
         return (*o).set_intersection(rcp_from_this_cast<const Set>());
     } else {
-        return SymEngine::set_intersection(
-            {rcp_from_this_cast<const Set>(), o});
+        return intersection_fallback(rcp_from_this_cast<const Set>(), o);
     }
 }
 
@@ -608,8 +634,7 @@ RCP<const Set> Naturals::set_intersection(const RCP<const Set> &o) const
     } else if (is_a<FiniteSet>(*o) or is_a<Interval>(*o)) {
         return (*o).set_intersection(rcp_from_this_cast<const Set>());
     } else {
-        return SymEngine::set_intersection(
-            {rcp_from_this_cast<const Set>(), o});
+        return intersection_fallback(rcp_from_this_cast<const Set>(), o);
     }
 }
 
@@ -694,8 +719,7 @@ RCP<const Set> Naturals0::set_intersection(const RCP<const Set> &o) const
     } else if (is_a<FiniteSet>(*o) or is_a<Interval>(*o)) {
         return (*o).set_intersection(rcp_from_this_cast<const Set>());
     } else {
-        return SymEngine::set_intersection(
-            {rcp_from_this_cast<const Set>(), o});
+        return intersection_fallback(rcp_from_this_cast<const Set>(), o);
     }
 }
 
